@@ -275,4 +275,420 @@ theorem div_ofNat_zero {u : ℕ} (hu : 0 < u) (hu' : u < 2 ^ 24) :
   have hd : (0 : ℤ) - (-((23 - u.log2 : ℕ) : ℤ)) ≥ 0 := by omega
   rw [if_pos hd, Nat.zero_mul, roundRat_zero_left]
 
+/-! ### F6–F8. Value-level facts -/
+
+/-- Exact rational value of a (non-negative, normal or zero) bit pattern; `0` for patterns outside
+the modelled range. -/
+def val (b : UInt32) : ℚ :=
+  match decode b with
+  | some (m, e) => (m : ℚ) * 2 ^ e
+  | none => 0
+
+theorem val_of_decode {b : UInt32} {m : ℕ} {e : ℤ} (h : decode b = some (m, e)) :
+    val b = (m : ℚ) * 2 ^ e := by
+  simp [val, h]
+
+theorem val_zero : val 0 = 0 := by
+  rw [val_of_decode decode_zero]; simp
+
+theorem decode_one : decode oneBits = some (2 ^ 23, -23) := by decide
+
+theorem val_one : val oneBits = 1 := by
+  rw [val_of_decode decode_one]
+  norm_num
+
+/-- `rnd N D` is a nearest integer to `N/D`, and it is even in case of a tie. -/
+theorem rnd_spec {N D : ℕ} (hD : 0 < D) :
+    2 * N ≤ 2 * (rnd N D * D) + D ∧ 2 * (rnd N D * D) ≤ 2 * N + D ∧
+    ((2 * (rnd N D * D) = 2 * N + D ∨ 2 * N = 2 * (rnd N D * D) + D) → rnd N D % 2 = 0) := by
+  have hN : D * (N / D) + N % D = N := Nat.div_add_mod N D
+  have hm : N % D < D := Nat.mod_lt _ hD
+  unfold rnd
+  generalize N / D = f at *
+  generalize N % D = m at *
+  rw [Nat.mul_comm D f] at hN
+  split
+  · next hc =>
+    simp only [Nat.add_mul, Nat.one_mul]
+    generalize f * D = P at *
+    omega
+  · next hc =>
+    generalize f * D = P at *
+    omega
+
+theorem rnd_spec_rat {N D : ℕ} (hD : 0 < D) :
+    (N : ℚ) / D ≤ rnd N D + 1 / 2 ∧ (rnd N D : ℚ) ≤ N / D + 1 / 2 := by
+  obtain ⟨h1, h2, _⟩ := rnd_spec (N := N) hD
+  have hDq : (0 : ℚ) < D := by exact_mod_cast hD
+  have q1 : (2 : ℚ) * N ≤ 2 * (rnd N D * D) + D := by exact_mod_cast h1
+  have q2 : (2 : ℚ) * (rnd N D * D) ≤ 2 * N + D := by exact_mod_cast h2
+  constructor
+  · rw [div_le_iff₀ hDq]; nlinarith
+  · rw [← sub_le_iff_le_add, le_div_iff₀ hDq]; nlinarith
+
+/-- Rounding to nearest-even is monotone. -/
+theorem rnd_mono {N D N' D' : ℕ} (hD : 0 < D) (hD' : 0 < D') (h : N * D' ≤ N' * D) :
+    rnd N D ≤ rnd N' D' := by
+  obtain ⟨a1, a2, a3⟩ := rnd_spec (N := N) hD
+  obtain ⟨b1, b2, b3⟩ := rnd_spec (N := N') hD'
+  by_contra hlt
+  have hlt' : rnd N' D' + 1 ≤ rnd N D := by omega
+  -- 2 r D ≤ 2N + D, 2N' ≤ 2 r' D' + D'.  Multiply: (2r - 1) D D' ≤ 2 N D' ≤ 2 N' D ≤ (2r' + 1) D D'
+  have c1 : 2 * (rnd N D * D) * D' ≤ (2 * N + D) * D' := Nat.mul_le_mul_right _ a2
+  have c2 : 2 * N' * D ≤ (2 * (rnd N' D' * D') + D') * D := Nat.mul_le_mul_right _ b1
+  have hDD : 0 < D * D' := Nat.mul_pos hD hD'
+  have key : 2 * rnd N D * (D * D') ≤ (2 * rnd N' D' + 2) * (D * D') := by nlinarith
+  have key' : 2 * rnd N D ≤ 2 * rnd N' D' + 2 := Nat.le_of_mul_le_mul_right key hDD
+  have hr : rnd N D = rnd N' D' + 1 := by omega
+  -- all inequalities are equalities
+  have e1 : 2 * (rnd N D * D) * D' = (2 * N + D) * D' := by nlinarith
+  have e2 : 2 * N' * D = (2 * (rnd N' D' * D') + D') * D := by nlinarith
+  have e1' : 2 * (rnd N D * D) = 2 * N + D := Nat.eq_of_mul_eq_mul_right hD' e1
+  have e2' : 2 * N' = 2 * (rnd N' D' * D') + D' := Nat.eq_of_mul_eq_mul_right hD e2
+  have p1 := a3 (Or.inl e1')
+  have p2 := b3 (Or.inr e2')
+  omega
+
+theorem scD_pos {den : ℕ} (hd : 0 < den) (e : ℤ) : 0 < scD den e := by
+  unfold scD; split
+  · exact hd
+  · exact Nat.mul_pos hd (Nat.pow_pos (by omega))
+
+/-- The scaled operands represent `num/den * 2^(23-e)`. -/
+theorem sc_ratio (num : ℕ) {den : ℕ} (hd : 0 < den) (e : ℤ) :
+    (scN num e : ℚ) / (scD den e : ℚ) = (num : ℚ) / den * 2 ^ (23 - e) := by
+  have hdq : (den : ℚ) ≠ 0 := by exact_mod_cast (Nat.ne_of_gt hd)
+  have h2 : (2 : ℚ) ≠ 0 := by norm_num
+  unfold scN scD
+  by_cases h : 23 - e ≥ 0
+  · rw [if_pos h, if_pos h]
+    obtain ⟨k, hk⟩ : ∃ k : ℕ, 23 - e = k := ⟨(23 - e).toNat, by omega⟩
+    rw [hk, Int.toNat_natCast, zpow_natCast]
+    push_cast
+    ring
+  · rw [if_neg h, if_neg h]
+    obtain ⟨k, hk⟩ : ∃ k : ℕ, -(23 - e) = k := ⟨(-(23 - e)).toNat, by omega⟩
+    have hk' : 23 - e = -(k : ℤ) := by omega
+    rw [hk, hk', Int.toNat_natCast, zpow_neg, zpow_natCast]
+    push_cast
+    field_simp
+
+theorem pack_carry (e : ℤ) : pack (2 ^ 24) e = pack (2 ^ 23) (e + 1) := by
+  simp [pack]
+
+theorem val_pack {r : ℕ} {e : ℤ} (h1 : 2 ^ 23 ≤ r) (h2 : r ≤ 2 ^ 24) (he1 : -126 ≤ e)
+    (he2 : e ≤ 126) : val (pack r e) = (r : ℚ) * 2 ^ (e - 23) := by
+  by_cases hr : r = 2 ^ 24
+  · subst hr
+    rw [pack_carry, val_of_decode (decode_pack (le_refl _) (by norm_num) (by omega) (by omega))]
+    have : e + 1 - 23 = (e - 23) + 1 := by ring
+    rw [this, zpow_add_one₀ (by norm_num : (2 : ℚ) ≠ 0)]
+    push_cast
+    ring
+  · rw [val_of_decode (decode_pack h1 (by omega) he1 (by omega))]
+
+theorem two_zpow_mul_compl (e : ℤ) : (2 : ℚ) ^ e * 2 ^ (23 - e) = 2 ^ 23 := by
+  rw [← zpow_add₀ (by norm_num : (2 : ℚ) ≠ 0)]
+  have : e + (23 - e) = ((23 : ℕ) : ℤ) := by omega
+  rw [this, zpow_natCast]
+
+theorem two_zpow_compl_mul (e : ℤ) : (2 : ℚ) ^ (23 - e) * 2 ^ (e - 23) = 1 := by
+  rw [← zpow_add₀ (by norm_num : (2 : ℚ) ≠ 0)]
+  have : 23 - e + (e - 23) = 0 := by omega
+  rw [this, zpow_zero]
+
+/-- The ratio scaled by `2^(23-e)` lies in `[2^23, 2^24)`. -/
+theorem scaled_bounds {num den : ℕ} (hn : 0 < num) (hd : 0 < den) :
+    (2 : ℚ) ^ 23 ≤ (num : ℚ) / den * 2 ^ (23 - ratExp num den) ∧
+    (num : ℚ) / den * 2 ^ (23 - ratExp num den) < 2 ^ 24 := by
+  obtain ⟨s1, s2⟩ := ratExp_spec hn hd
+  have hdq : (0 : ℚ) < den := by exact_mod_cast hd
+  have hp := two_zpow_pos (23 - ratExp num den)
+  have t1 : (2 : ℚ) ^ ratExp num den ≤ (num : ℚ) / den := by
+    rw [le_div_iff₀ hdq, mul_comm]; exact s1
+  have t2 : (num : ℚ) / den < 2 ^ (ratExp num den + 1) := by
+    rw [div_lt_iff₀ hdq, mul_comm]; exact s2
+  constructor
+  · rw [← two_zpow_mul_compl (ratExp num den)]
+    exact mul_le_mul_of_nonneg_right t1 (le_of_lt hp)
+  · have : (2 : ℚ) ^ 24 = 2 ^ (ratExp num den + 1) * 2 ^ (23 - ratExp num den) := by
+      rw [zpow_add_one₀ (by norm_num : (2 : ℚ) ≠ 0), mul_right_comm, two_zpow_mul_compl]
+      norm_num
+    rw [this]
+    exact mul_lt_mul_of_pos_right t2 hp
+
+/-- The 24-bit significand chosen by `roundRat` (possibly `2^24` after a carry). -/
+def sig (num den : ℕ) : ℕ := rnd (scN num (ratExp num den)) (scD den (ratExp num den))
+
+/-- Main value-level description of `roundRat`: for a ratio in the normal range the result is
+`r * 2^(e-23)` where `e = ⌊log₂(num/den)⌋` and `r = sig num den ∈ [2^23, 2^24]` is
+`num/den * 2^(23-e)` rounded to a nearest integer. -/
+theorem roundRat_val {num den : ℕ} (hn : 0 < num) (hd : 0 < den)
+    (he1 : -126 ≤ ratExp num den) (he2 : ratExp num den ≤ 126) :
+    2 ^ 23 ≤ sig num den ∧ sig num den ≤ 2 ^ 24 ∧
+      val (roundRat num den) = (sig num den : ℚ) * 2 ^ (ratExp num den - 23) ∧
+      (num : ℚ) / den * 2 ^ (23 - ratExp num den) ≤ sig num den + 1 / 2 ∧
+      (sig num den : ℚ) ≤ (num : ℚ) / den * 2 ^ (23 - ratExp num den) + 1 / 2 := by
+  obtain ⟨b1, b2⟩ := scaled_bounds hn hd
+  obtain ⟨r1, r2⟩ := rnd_spec_rat (N := scN num (ratExp num den)) (scD_pos hd (ratExp num den))
+  rw [sc_ratio num hd] at r1 r2
+  have hv : roundRat num den = pack (sig num den) (ratExp num den) := roundRat_of_pos hn hd
+  change _ ≤ ((sig num den : ℕ) : ℚ) + 1 / 2 at r1
+  change ((sig num den : ℕ) : ℚ) ≤ _ at r2
+  generalize sig num den = r at *
+  have hr1 : 2 ^ 23 ≤ r := by
+    by_contra hc
+    have h' : r + 1 ≤ 2 ^ 23 := by omega
+    have h'' : (r : ℚ) + 1 ≤ 2 ^ 23 := by exact_mod_cast h'
+    linarith
+  have hr2 : r ≤ 2 ^ 24 := by
+    by_contra hc
+    have h' : 2 ^ 24 + 1 ≤ r := by omega
+    have h'' : (2 : ℚ) ^ 24 + 1 ≤ r := by exact_mod_cast h'
+    linarith
+  refine ⟨hr1, hr2, ?_, r1, r2⟩
+  rw [hv]
+  exact val_pack hr1 hr2 he1 he2
+
+/-- Absolute error: at most half a unit in the last place of the binade of `num/den`. -/
+theorem roundRat_err {num den : ℕ} (hn : 0 < num) (hd : 0 < den)
+    (he1 : -126 ≤ ratExp num den) (he2 : ratExp num den ≤ 126) :
+    |val (roundRat num den) - (num : ℚ) / den| ≤ 2 ^ (ratExp num den - 24) := by
+  obtain ⟨_, _, hv, r1, r2⟩ := roundRat_val hn hd he1 he2
+  generalize ratExp num den = e at *
+  generalize sig num den = r at *
+  have hp := two_zpow_pos (e - 23)
+  have hx : (num : ℚ) / den = (num : ℚ) / den * 2 ^ (23 - e) * 2 ^ (e - 23) := by
+    rw [mul_assoc, two_zpow_compl_mul, mul_one]
+  have hhalf : (2 : ℚ) ^ (e - 24) = 1 / 2 * 2 ^ (e - 23) := by
+    have : e - 23 = (e - 24) + 1 := by ring
+    rw [this, zpow_add_one₀ (by norm_num : (2 : ℚ) ≠ 0)]; ring
+  rw [hv, hhalf, abs_le]
+  generalize (num : ℚ) / den * 2 ^ (23 - e) = X at *
+  rw [hx]
+  constructor
+  · nlinarith
+  · nlinarith
+
+/-! #### Exponent range for small operands -/
+
+theorem le_ratExp {num den : ℕ} (hn : 0 < num) (hd : 0 < den) (k : ℤ)
+    (h : (den : ℚ) * 2 ^ k ≤ num) : k ≤ ratExp num den := by
+  obtain ⟨_, s2⟩ := ratExp_spec hn hd
+  have hdq : (0 : ℚ) < den := by exact_mod_cast hd
+  have a := lt_of_mul_lt_mul_left (lt_of_le_of_lt h s2) (le_of_lt hdq)
+  rw [zpow_lt_zpow_iff_right₀ (by norm_num : (1 : ℚ) < 2)] at a
+  omega
+
+theorem ratExp_lt {num den : ℕ} (hn : 0 < num) (hd : 0 < den) (k : ℤ)
+    (h : (num : ℚ) < den * 2 ^ k) : ratExp num den < k := by
+  obtain ⟨s1, _⟩ := ratExp_spec hn hd
+  have hdq : (0 : ℚ) < den := by exact_mod_cast hd
+  have a := lt_of_mul_lt_mul_left (lt_of_le_of_lt s1 h) (le_of_lt hdq)
+  rwa [zpow_lt_zpow_iff_right₀ (by norm_num : (1 : ℚ) < 2)] at a
+
+theorem ratExp_range {n u : ℕ} (hn : 0 < n) (hu : 0 < u) (hn' : n < 2 ^ 24) (hu' : u < 2 ^ 24) :
+    -24 ≤ ratExp n u ∧ ratExp n u ≤ 23 := by
+  have hnq : (1 : ℚ) ≤ n := by exact_mod_cast hn
+  have huq : (1 : ℚ) ≤ u := by exact_mod_cast hu
+  have hnq' : (n : ℚ) < 2 ^ 24 := by exact_mod_cast hn'
+  have huq' : (u : ℚ) < 2 ^ 24 := by exact_mod_cast hu'
+  constructor
+  · apply le_ratExp hn hu
+    have : (2 : ℚ) ^ (-24 : ℤ) = 1 / 2 ^ 24 := by norm_num [zpow_neg]
+    rw [this, mul_one_div, div_le_iff₀ (by positivity)]
+    nlinarith
+  · have := ratExp_lt hn hu 24 (by
+      have : (2 : ℚ) ^ (24 : ℤ) = 2 ^ 24 := by norm_num
+      rw [this]; nlinarith)
+    omega
+
+theorem ratExp_nonpos {n u : ℕ} (hn : 0 < n) (hle : n ≤ u) : ratExp n u ≤ 0 := by
+  have hq : (n : ℚ) ≤ u := by exact_mod_cast hle
+  have hnq : (0 : ℚ) < n := by exact_mod_cast hn
+  have := ratExp_lt hn (by omega : 0 < u) 1 (by rw [zpow_one]; linarith)
+  omega
+
+theorem ratExp_neg {n u : ℕ} (hn : 0 < n) (hlt : n < u) : ratExp n u < 0 := by
+  have hq : (n : ℚ) < u := by exact_mod_cast hlt
+  exact ratExp_lt hn (by omega : 0 < u) 0 (by rw [zpow_zero, mul_one]; exact hq)
+
+/-! #### F6 -/
+
+theorem roundRat_self {n : ℕ} (hn : 0 < n) : roundRat n n = oneBits := by
+  have h := roundRat_scale hn 1 1
+  rw [Nat.mul_one] at h
+  rw [h]; decide +kernel
+
+theorem val_roundRat_pos {n u : ℕ} (hn : 0 < n) (hu : 0 < u) (hn' : n < 2 ^ 24)
+    (hu' : u < 2 ^ 24) : 0 < val (roundRat n u) := by
+  obtain ⟨e1, e2⟩ := ratExp_range hn hu hn' hu'
+  obtain ⟨h1, _, hv, _, _⟩ := roundRat_val hn hu (by omega) (by omega)
+  rw [hv]
+  have : (0 : ℚ) < sig n u := by exact_mod_cast (by omega : 0 < sig n u)
+  exact mul_pos this (two_zpow_pos _)
+
+/-- F7. Absolute error of the rounded distance: at most `2^-25` (half an ulp below `1`). -/
+theorem roundRat_err_unit {n u : ℕ} (hn : 0 < n) (hle : n ≤ u) (hu' : u < 2 ^ 24) :
+    |val (roundRat n u) - (n : ℚ) / u| ≤ 1 / 2 ^ 25 := by
+  have hu : 0 < u := by omega
+  rcases Nat.eq_or_lt_of_le hle with heq | hlt
+  · subst heq
+    have hnq : (n : ℚ) ≠ 0 := by exact_mod_cast (Nat.ne_of_gt hn)
+    rw [roundRat_self hn, val_one, div_self hnq, sub_self, abs_zero]
+    positivity
+  · obtain ⟨e1, e2⟩ := ratExp_range hn hu (by omega) hu'
+    have e3 := ratExp_neg hn hlt
+    refine le_trans (roundRat_err hn hu (by omega) (by omega)) ?_
+    have : (1 : ℚ) / 2 ^ 25 = 2 ^ (-25 : ℤ) := by norm_num [zpow_neg]
+    rw [this]
+    exact zpow_le_zpow_right₀ (by norm_num) (by omega)
+
+theorem val_roundRat_lt_one {n u : ℕ} (hn : 0 < n) (hlt : n < u) (hu' : u < 2 ^ 24) :
+    val (roundRat n u) < 1 := by
+  have herr := roundRat_err_unit hn (le_of_lt hlt) hu'
+  rw [abs_le] at herr
+  have huq : (0 : ℚ) < u := by exact_mod_cast (by omega : 0 < u)
+  have huq' : (u : ℚ) < 2 ^ 24 := by exact_mod_cast hu'
+  have hq : (n : ℚ) + 1 ≤ u := by exact_mod_cast hlt
+  have hx : (n : ℚ) / u ≤ 1 - 1 / 2 ^ 24 := by
+    rw [div_le_iff₀ huq]
+    have : (u : ℚ) / 2 ^ 24 < 1 := by rw [div_lt_one (by positivity)]; exact huq'
+    have : (1 - 1 / 2 ^ 24) * (u : ℚ) = u - u / 2 ^ 24 := by ring
+    linarith
+  have : (1 : ℚ) / 2 ^ 25 < 1 / 2 ^ 24 := by norm_num
+  linarith
+
+theorem val_roundRat_le_one {n u : ℕ} (hn : 0 < n) (hle : n ≤ u) (hu' : u < 2 ^ 24) :
+    val (roundRat n u) ≤ 1 := by
+  rcases Nat.eq_or_lt_of_le hle with heq | hlt
+  · subst heq; rw [roundRat_self hn, val_one]
+  · exact le_of_lt (val_roundRat_lt_one hn hlt hu')
+
+/-- F6. The rounded ratio is `1.0` exactly when the ratio is `1`. -/
+theorem roundRat_eq_one_iff {n u : ℕ} (hn : 0 < n) (hle : n ≤ u) (hu' : u < 2 ^ 24) :
+    roundRat n u = oneBits ↔ n = u := by
+  constructor
+  · intro h
+    by_contra hne
+    have := val_roundRat_lt_one hn (by omega : n < u) hu'
+    rw [h, val_one] at this
+    exact lt_irrefl _ this
+  · intro h; subst h; exact roundRat_self hn
+
+/-- F6. The rounded ratio is `+0.0` exactly when the numerator is `0`. -/
+theorem roundRat_eq_zero_iff {n u : ℕ} (hu : 0 < u) (hn' : n < 2 ^ 24) (hu' : u < 2 ^ 24) :
+    roundRat n u = 0 ↔ n = 0 := by
+  constructor
+  · intro h
+    by_contra hne
+    have := val_roundRat_pos (Nat.pos_of_ne_zero hne) hu hn' hu'
+    rw [h, val_zero] at this
+    exact lt_irrefl _ this
+  · intro h; subst h; exact roundRat_zero_left u
+
+/-! #### F8. Monotonicity -/
+
+theorem val_le_two_zpow {num den : ℕ} (hn : 0 < num) (hd : 0 < den)
+    (he1 : -126 ≤ ratExp num den) (he2 : ratExp num den ≤ 126) :
+    (2 : ℚ) ^ ratExp num den ≤ val (roundRat num den) ∧
+      val (roundRat num den) ≤ 2 ^ (ratExp num den + 1) := by
+  obtain ⟨h1, h2, hv, _, _⟩ := roundRat_val hn hd he1 he2
+  have q1 : (2 : ℚ) ^ 23 ≤ sig num den := by exact_mod_cast h1
+  have q2 : (sig num den : ℚ) ≤ 2 ^ 24 := by exact_mod_cast h2
+  have hp := two_zpow_pos (ratExp num den - 23)
+  have a1 : (2 : ℚ) ^ ratExp num den = 2 ^ 23 * 2 ^ (ratExp num den - 23) := by
+    have : ratExp num den = ((23 : ℕ) : ℤ) + (ratExp num den - 23) := by omega
+    conv_lhs => rw [this, zpow_add₀ (by norm_num : (2 : ℚ) ≠ 0), zpow_natCast]
+  have a2 : (2 : ℚ) ^ (ratExp num den + 1) = 2 ^ 24 * 2 ^ (ratExp num den - 23) := by
+    have : ratExp num den + 1 = ((24 : ℕ) : ℤ) + (ratExp num den - 23) := by omega
+    conv_lhs => rw [this, zpow_add₀ (by norm_num : (2 : ℚ) ≠ 0), zpow_natCast]
+  rw [hv, a1, a2]
+  exact ⟨mul_le_mul_of_nonneg_right q1 (le_of_lt hp), mul_le_mul_of_nonneg_right q2 (le_of_lt hp)⟩
+
+/-- F8. Rounding is monotone in the exact ratio (both ratios in the normal range). -/
+theorem roundRat_mono {n u n' u' : ℕ} (hn : 0 < n) (hu : 0 < u) (hn' : 0 < n') (hu' : 0 < u')
+    (he1 : -126 ≤ ratExp n u) (he2 : ratExp n u ≤ 126)
+    (he1' : -126 ≤ ratExp n' u') (he2' : ratExp n' u' ≤ 126)
+    (h : (n : ℚ) / u ≤ (n' : ℚ) / u') :
+    val (roundRat n u) ≤ val (roundRat n' u') := by
+  have huq : (0 : ℚ) < u := by exact_mod_cast hu
+  have huq' : (0 : ℚ) < u' := by exact_mod_cast hu'
+  obtain ⟨s1, _⟩ := ratExp_spec hn hu
+  have hee : ratExp n u ≤ ratExp n' u' := by
+    apply le_ratExp hn' hu'
+    have t1 : (2 : ℚ) ^ ratExp n u ≤ (n : ℚ) / u := by
+      rw [le_div_iff₀ huq, mul_comm]; exact s1
+    have t2 := le_trans t1 h
+    rw [le_div_iff₀ huq', mul_comm] at t2
+    exact t2
+  rcases Int.lt_or_eq_of_le hee with hlt | heq
+  · obtain ⟨_, b2⟩ := val_le_two_zpow hn hu he1 he2
+    obtain ⟨b1', _⟩ := val_le_two_zpow hn' hu' he1' he2'
+    have : (2 : ℚ) ^ (ratExp n u + 1) ≤ 2 ^ ratExp n' u' :=
+      zpow_le_zpow_right₀ (by norm_num) (by omega)
+    linarith
+  · obtain ⟨_, _, hv, _, _⟩ := roundRat_val hn hu he1 he2
+    obtain ⟨_, _, hv', _, _⟩ := roundRat_val hn' hu' he1' he2'
+    rw [hv, hv', ← heq]
+    apply mul_le_mul_of_nonneg_right _ (le_of_lt (two_zpow_pos _))
+    have hD := scD_pos hu (ratExp n u)
+    have hD' := scD_pos hu' (ratExp n u)
+    have hDq : (0 : ℚ) < scD u (ratExp n u) := by exact_mod_cast hD
+    have hDq' : (0 : ℚ) < scD u' (ratExp n u) := by exact_mod_cast hD'
+    have hr : (scN n (ratExp n u) : ℚ) / scD u (ratExp n u)
+        ≤ (scN n' (ratExp n u) : ℚ) / scD u' (ratExp n u) := by
+      rw [sc_ratio n hu, sc_ratio n' hu']
+      exact mul_le_mul_of_nonneg_right h (le_of_lt (two_zpow_pos _))
+    rw [div_le_div_iff₀ hDq hDq'] at hr
+    have hr' : scN n (ratExp n u) * scD u' (ratExp n u)
+        ≤ scN n' (ratExp n u) * scD u (ratExp n u) := by exact_mod_cast hr
+    have := rnd_mono hD hD' hr'
+    unfold sig
+    rw [← heq]
+    exact_mod_cast this
+
+/-- Relative error: at most `2^-24`. -/
+theorem roundRat_rel_err {num den : ℕ} (hn : 0 < num) (hd : 0 < den)
+    (he1 : -126 ≤ ratExp num den) (he2 : ratExp num den ≤ 126) :
+    |val (roundRat num den) - (num : ℚ) / den| ≤ (num : ℚ) / den / 2 ^ 24 := by
+  refine le_trans (roundRat_err hn hd he1 he2) ?_
+  obtain ⟨s1, _⟩ := ratExp_spec hn hd
+  have hdq : (0 : ℚ) < den := by exact_mod_cast hd
+  have t1 : (2 : ℚ) ^ ratExp num den ≤ (num : ℚ) / den := by
+    rw [le_div_iff₀ hdq, mul_comm]; exact s1
+  have : (2 : ℚ) ^ (ratExp num den - 24) = 2 ^ ratExp num den / 2 ^ 24 := by
+    rw [zpow_sub₀ (by norm_num : (2 : ℚ) ≠ 0)]; norm_num
+  rw [this]
+  exact div_le_div_of_nonneg_right t1 (by positivity)
+
+/-- F8 (strict). Enlarging the denominator by one changes the rounded value, as long as the
+denominators stay below `2^23`. -/
+theorem roundRat_succ_den_lt {n u : ℕ} (hn : 0 < n) (hle : n ≤ u) (hu' : u + 1 < 2 ^ 23) :
+    val (roundRat n (u + 1)) < val (roundRat n u) := by
+  have hu : 0 < u := by omega
+  obtain ⟨e1, e2⟩ := ratExp_range hn hu (by omega) (by omega)
+  obtain ⟨e1', e2'⟩ := ratExp_range hn (by omega : 0 < u + 1) (by omega) (by omega)
+  have r1 := roundRat_rel_err hn hu (by omega) (by omega)
+  have r2 := roundRat_rel_err hn (by omega : 0 < u + 1) (by omega) (by omega)
+  rw [abs_le] at r1 r2
+  have hnq : (0 : ℚ) < n := by exact_mod_cast hn
+  have huq : (0 : ℚ) < u := by exact_mod_cast hu
+  have huq' : (u : ℚ) + 1 < 2 ^ 23 := by exact_mod_cast hu'
+  push_cast at r2 ⊢
+  have key : (n : ℚ) / (u + 1) + (n : ℚ) / (u + 1) / 2 ^ 24 < (n : ℚ) / u - (n : ℚ) / u / 2 ^ 24 := by
+    have h1 : (n : ℚ) / (u + 1) + (n : ℚ) / (u + 1) / 2 ^ 24
+        = (n : ℚ) * (1 + 1 / 2 ^ 24) / (u + 1) := by ring
+    have h2 : (n : ℚ) / u - (n : ℚ) / u / 2 ^ 24 = (n : ℚ) * (1 - 1 / 2 ^ 24) / u := by ring
+    rw [h1, h2, div_lt_div_iff₀ (by linarith) huq]
+    have h3 : (0 : ℚ) < 1 - (2 * u + 1) / 2 ^ 24 := by
+      have : (2 * (u : ℚ) + 1) / 2 ^ 24 < 1 := by
+        rw [div_lt_one (by positivity)]; norm_num at huq' ⊢; linarith
+      linarith
+    have h4 := mul_pos hnq h3
+    have h5 : (n : ℚ) * (1 - 1 / 2 ^ 24) * (u + 1) - (n : ℚ) * (1 + 1 / 2 ^ 24) * u
+        = (n : ℚ) * (1 - (2 * u + 1) / 2 ^ 24) := by ring
+    linarith
+  linarith
+
 end GambitV.F32
